@@ -2,6 +2,7 @@
    Only statements, closed by [exact]; proofs live in Proofs/Inodes*.v. *)
 From Coq Require Import List NArith Bool.
 From FB Require Import Model.Inodes Proofs.Inodes Proofs.InodesNum Proofs.InodesHost.
+From FB Require Lib.RustExpr Gen.RustPure Proofs.RustPure Proofs.RustPureInodes.
 Import ListNotations.
 Local Open Scope N_scope.
 
@@ -154,6 +155,24 @@ Example C08_nonvacuous :
   refs_of (snd (run d9_cfg (fresh d9_cfg d9_root) ex_hist)) 1 = 2.
 Proof. exact ex_hist_ok. Qed.
 
+(* ---- tie to the source text (Gen/RustPure.v is re-translated from src/passthrough/util.rs on every run): the bit
+   packing of UniqueInodeGenerator::get_unique_inode (unique id << 47 | host inode, or | next virtual inode | 1 << 55
+   above MAX_HOST_INO) is the model's [enc_ino] over the same case split *)
+Theorem C08_src_unique_inode : forall u ino nv, u < 256 -> ino < 18446744073709551616 -> nv < 18446744073709551616 ->
+  RustExpr.eval_fn RustExpr.Debug RustPure.unique_inode_src
+    [RustExpr.VInt RustExpr.U64 ino; RustExpr.VInt RustExpr.U64 nv; RustExpr.VInt RustExpr.U8 u] =
+  RustPureInodes.unique_inode_spec u ino nv.
+Proof. exact RustPureInodes.src_unique_inode. Qed.
+Theorem C08_src_unique_inode_model : forall s id u,
+  mget pair_eqb (uids s) (hid_dev id, hid_mnt id) = Some u ->
+  match fst (get_unique_inode s id) with
+  | Some x => RustPureInodes.unique_inode_spec u (hid_ino id) (next_virt s) =
+              RustExpr.Val (RustExpr.VOk (RustExpr.VInt RustExpr.U64 x))
+  | None => RustPureInodes.unique_inode_spec u (hid_ino id) (next_virt s) =
+            RustPureInodes.err_other
+  end.
+Proof. exact RustPureInodes.unique_inode_spec_model. Qed.
+
 Print Assumptions C08_full_holds.
 Print Assumptions C08_history.
 Print Assumptions C08_undo_neutral.
@@ -176,3 +195,5 @@ Print Assumptions C08_no_reuse_nohandle.
 Print Assumptions C08_history_hostino.
 Print Assumptions C08_history_hostino_nohandle.
 Print Assumptions C08_hostino_handles_refuted.
+Print Assumptions C08_src_unique_inode.
+Print Assumptions C08_src_unique_inode_model.
